@@ -268,6 +268,11 @@ pub enum ConfigError {
     },
     #[error("Invalid '{0}' field for a TCP frontend")]
     InvalidFrontendConfig(String),
+    #[error("cluster '{cluster_id}' declares the frontend {frontend} more than once, or another cluster already declares it")]
+    DuplicateFrontend {
+        cluster_id: String,
+        frontend: String,
+    },
     #[error("invalid health_check for cluster '{cluster_id}': {reason}")]
     InvalidHealthCheck {
         cluster_id: String,
@@ -2228,6 +2233,13 @@ impl FileClusterConfig {
                         }
                     }
                     let tcp_frontend = f.to_tcp_front()?;
+                    // the state refuses the second copy of a TCP/UDP frontend
+                    if frontends.contains(&tcp_frontend) {
+                        return Err(ConfigError::DuplicateFrontend {
+                            cluster_id: cluster_id.to_owned(),
+                            frontend: tcp_frontend.address.to_string(),
+                        });
+                    }
                     frontends.push(tcp_frontend);
                 }
 
@@ -3085,6 +3097,11 @@ impl ConfigBuilder {
         &mut self,
         mut file_cluster_configs: HashMap<String, FileClusterConfig>,
     ) -> Result<(), ConfigError> {
+        // ConfigState keys an HTTP(S) frontend by (address, hostname, path rule,
+        // method): a second frontend with the same key is refused at dispatch, and
+        // across clusters the one that survives depends on HashMap order.
+        let mut known_routes: HashSet<(bool, SocketAddr, String, PathRule, Option<String>)> =
+            HashSet::new();
         for (id, file_cluster_config) in file_cluster_configs.drain() {
             let mut cluster_config =
                 file_cluster_config.to_cluster_config(id.as_str(), &self.expect_proxy_addresses)?;
@@ -3155,6 +3172,22 @@ impl ConfigBuilder {
                                 self.known_addresses
                                     .insert(frontend.address, file_listener_protocol);
                             }
+                        }
+                        let route = (
+                            frontend.key.is_some() && frontend.certificate.is_some(),
+                            frontend.address,
+                            frontend.hostname.clone(),
+                            frontend.path.clone(),
+                            frontend.method.clone(),
+                        );
+                        if !known_routes.insert(route) {
+                            return Err(ConfigError::DuplicateFrontend {
+                                cluster_id: id,
+                                frontend: format!(
+                                    "{};{};{:?}",
+                                    frontend.address, frontend.hostname, frontend.path
+                                ),
+                            });
                         }
                     }
                 }
